@@ -96,6 +96,47 @@ pub fn base_verdict(sc: &Scenario, rec: &RunRecord) -> Verdict {
     v.virtual_time = rec.stats.virtual_time;
     v.max_polls = rec.stats.max_polls_in_a_solve;
     v.faults = fault_counts(sc, rec);
+    // reach probes: which corners of the input space this run touched
+    {
+        let w = &sc.world;
+        let mut bump = |k: &'static str| *v.probes.entry(k).or_insert(0) += 1;
+        let n = w.n_solvables();
+        if n > 200 {
+            bump("world_over_200_solvables");
+        }
+        if w.packages.values().any(|p| p.candidates.len() > 30) {
+            bump("package_with_over_30_candidates");
+        } else if w.packages.values().any(|p| p.candidates.len() > 20) {
+            bump("package_with_21_to_30_candidates");
+        }
+        if w.unions.values().any(|u| u.len() > 30) {
+            bump("union_with_over_30_members");
+        }
+        if sc.solves.iter().any(|s| s.problem.soft.len() > 30) {
+            bump("soft_list_over_30");
+        }
+        if sc.solves.iter().any(|s| s.problem.requirements.len() > 30) {
+            bump("root_with_over_30_requirements");
+        }
+        if w.filter_reversed {
+            bump("filter_candidates_reverses_order");
+        }
+        if w.packages.values().any(|p| p.hint == Hint::Some(vec![])) {
+            bump("hint_spelled_as_empty_list");
+        }
+        if w.solvables.keys().next_back().map(|m| *m >= 127).unwrap_or(false) || w.packages.keys().next_back().map(|m| *m >= 127).unwrap_or(false) {
+            bump("ids_reach_chunk_boundary_128");
+        }
+        if sc.solves.len() > 1 {
+            bump("history_of_several_solves");
+        }
+        if sc.rewrap_before_render {
+            bump("with_runtime_before_render");
+        }
+        if sc.cancel_during_render {
+            bump("cancel_during_render");
+        }
+    }
     for (i, o) in rec.outcomes.iter().enumerate() {
         if let crate::run::Outcome::Ok(sol) = o {
             for x in &sc.solves[i].problem.soft {
